@@ -16,6 +16,7 @@ RULE = ("cases = (altitude, limb angle, cone, azimuth range, u in [0,1]^4) throu
         "a case is non-trivial when (configuration, rounded u) is distinct; quadrature points are counted as evaluations, "
         "one distinct case per (configuration, net size, region)")
 ASSUMPTIONS = [
+    "the finite-difference Jacobian oracle has tolerance 2e-5 + 8 eps / (theta_S * delta theta_S): theta_S is an arccos near 1 at low detector altitudes, so its difference quotient is ill-conditioned there (a false alarm at altitude 0.32 km, seed 3, was removed this way)",
     "the face u4 = 0 (spot on the horizon) is excluded from the pointwise weight identity: there the sampling density "
     "vanishes and the weight cos(theta_TrN)/cos(theta_NV) is unbounded (Jacobian singular); it has measure zero. "
     "Theorem C01.weight_is_integrand_over_density carries the guard costhetaNSubV != 0",
@@ -183,7 +184,11 @@ def pointwise(ctx, c, nev):
             ctx.violation("RegionGeom.mcintegral", "weight-vs-integrand-over-density",
                           f"weight*mcnorm*prod(pdf) = {float(w[i]*g.mcnorm*dens)!r} but integrand R^2 sin(thS) sin(thTr) cos(thTrN) = {float(integrand)!r}", case)
         # oracle 2: integrand x Jacobian of the real sampling map (finite differences); skip if a neighbour changed validity
-        if u[3, i] > 0.01 and abs(w[i] * g.mcnorm - integrand * jac[i]) > 2e-5 * abs(integrand * jac[i]) + 1e-12:
+        # conditioning of the difference quotient: theta_S comes out of an arccos, so it carries an absolute error of about
+        # eps/theta_S, which the quotient divides by the (tiny, at low altitude) increment of theta_S
+        d_thS = abs(up[i, 5] - um[i, 5])
+        fd_tol = 2e-5 + (8 * 2.3e-16 / (max(thS, 1e-300) * d_thS) if d_thS > 0 else np.inf)
+        if u[3, i] > 0.01 and abs(w[i] * g.mcnorm - integrand * jac[i]) > fd_tol * abs(integrand * jac[i]) + 1e-12:
             ctx.violation("RegionGeom.mcintegral", "weight-vs-integrand-times-jacobian",
                           f"weight*mcnorm = {float(w[i]*g.mcnorm)!r} but integrand x |d(thTr,phTr,phS,thS)/du| = {float(integrand*jac[i])!r}", case)
     # ---- batch integral, with and without a cutting cosine; exact tie on the cut
